@@ -23,6 +23,13 @@ REQUIRED_THEOREMS = ["collections_start_only_in_allocate_raw", "every_collection
 # traceReferences / sweep, the functions `collect_safe` (nothing reachable from a root is swept) is proved about
 THEOREM_MODULES.append("Yarel.Props.FnsTie.GcPasses")
 REQUIRED_THEOREMS += ["sweep_tie", "sweep_keeps_exactly_black", "mark_roots_tie", "trace_references_tie", "collect_passes_are_the_model"]
+# a captured variable is reachable for the collector through its cell only: while the cell is open the value lives in a stack slot, and a
+# slot that leaves scope while its cell is still open is a value the program can reach and the collector cannot.  What the compiler emits
+# when locals leave scope (end of a block, break, continue), proved of the bodies as read on this run: every captured slot is left through
+# CloseUpvalue, innermost first, and break / continue discard before they jump (Props/FnsTie/ScopeEnd, Statements)
+THEOREM_MODULES += ["Yarel.Props.FnsTie.ScopeEnd", "Yarel.Props.FnsTie.Statements"]
+REQUIRED_THEOREMS += ["emit_scope_end_spec", "captured_slots_are_closed", "break_discards_before_jumping", "break_statement_skeleton",
+                      "continue_statement_skeleton", "end_scope_skeleton"]
 USES_GEN = True
 LEVEL = "proof"
 ASSUMPTIONS = [
@@ -308,10 +315,25 @@ def search(ctx, broken):
         if progs.canon_step(a) != progs.canon_step(n):
             return [{"what": "output depends on whether the collector runs", "program": src, "name": name,
                      "always": progs.canon_step(a), "never": progs.canon_step(n), "failing_input": True}]
+    if any(t in b for b in broken for t in ("scope_end", "captured_slots", "break_", "continue_", "end_scope", "ScopeEnd", "Statements")):
+        # the obligation about what the compiler emits when captured locals leave scope broke: a slot popped while its cell is open shows
+        # in every schedule alike (the never-collect run is wrong too), so the failing input comes from the scoping programs and their
+        # reference expectations (the C06 correspondence)
+        from props import c06
+        res = c06.correspondence(ctx, model_ok=True)
+        for f in res.get("failures", []):
+            if f.get("failing_input", True) and "program" in f:
+                f = dict(f)
+                f["delegate"] = "c06"
+                f["what"] = "a captured variable left scope without its cell being closed (found by the scoping programs): " + str(f.get("what"))
+                return [f]
     return []
 
 
 def replay(ctx, payload):
+    if payload.get("delegate") == "c06":
+        from props import c06
+        return c06.replay(ctx, payload)
     if "history" in payload:
         from props import c15
         l = vlib.case_line("replay", c15.steps_of(payload["history"]), steps=2000000)
